@@ -42,6 +42,7 @@ FLAVOURS = {
              '-fsanitize=bounds,null,pointer-overflow,return,unreachable,vla-bound '
              '-fno-sanitize-recover=all -D' + GUARD, [], False),
     'asan-static': ('gcc', ASAN_C, [], False),
+    'plain-static': ('gcc', '-g -O1 -fno-omit-frame-pointer -D' + GUARD, [], False),     # for valgrind (helgrind, memcheck)
 }
 
 
